@@ -640,7 +640,9 @@ def check_parse(s, ctx=None):
 
 DOCS = [r"a {b} c", "x % c\n {y}", r"\textbf  {a} b", "a\n\n b", r"$a$ $$b$$ \(c\) \[d\]", r"\begin{itemize}\item[x] y\end{itemize}",
         r"\sqrt[3] {x}", r"a~b -- c ``d''", r"\verb|x y| z", r"\begin{verbatim} a {b \end{verbatim} c", r"\\[2pt] x", r"\\ [2pt]",
-        r"\begin{tabular}{cc} a & b \\ c & d\end{tabular}", r"\emph\alpha x", r"\item[] a", r"\begin{equation*} x \end{equation*}"]
+        r"\begin{tabular}{cc} a & b \\ c & d\end{tabular}", r"\emph\alpha x", r"\item[] a", r"\begin{equation*} x \end{equation*}",
+        r"\begin{enumerate}\item a\end {enumerate} tail", "\\begin {center}  x \\end  {center}\n", "{\\begin{itemize}\\item[z]\\end\n{itemize}}y",
+        r"a { } b", r"x $ $ y", "\\begin{center}\n\\end{center} tail", r"\begin{itemize}\item[ ] x\end{itemize}", r"a\(\)b", r"x \[\] y", r"$$$$ end"]
 
 def search(maxlen=4):
     for d in DOCS:
